@@ -155,23 +155,32 @@ def run(ck, F):
     (ck.ok if okb else ck.violation)("R4", "binding-loop", bnd_calls[0].site if bnd_calls else "-",
                                      "binding emitter: input envelope for every element of self.operations, unconditional" if okb else
                                      f"binding emitter iterates {sorted(map(str, bl))}", fn="SoapBinding::write_xml")
+    stream = [e for e in T.inline(X, T.ROOT) if e.kind == "emit"]
     for fn in OP_EMITTERS:
-        evs = [e for e in X.events.get(fn, []) if e.kind == "emit"]
-        sigs = [e for e in evs if re.match(r"^\s*pub async fn \{\}\(", e.skeleton())]
+        sigs_local = [e for e in X.events.get(fn, []) if e.kind == "emit" and re.match(r"^\s*pub async fn \{\}\(", e.skeleton())]
         short = fn.rsplit("::", 1)[-1]
-        conds = {tuple((og.nf_str(c[1]), c[2]) for c in e.ctx if c[0] == "alt") for e in sigs}
-        exclusive = len(sigs) == 2 and len(conds) == 2 and all(len(c) == 1 for c in conds) and len({c[0][0] for c in conds}) == 1
-        if exclusive:
-            ck.ok("R4", f"{short}:one-fn", sigs[0].site, f"{short}: exactly one `pub async fn` per call (two exclusive variants: with / without output)", fn=short)
+        # exactly one signature per call: one unconditional template, or templates that are pairwise exclusive and together exhaustive
+        decs = [[og.decision(c[1], c[2]) for c in e.ctx if c[0] == "alt"] for e in sigs_local]
+        one = len(sigs_local) == 1 and not decs[0]
+        two = len(sigs_local) == 2 and all(len(d) == 1 for d in decs) and decs[0][0][0] == decs[1][0][0] and decs[0][0][1] != decs[1][0][1]
+        if one or two:
+            ck.ok("R4", f"{short}:one-fn", sigs_local[0].site, f"{short}: exactly one `pub async fn` per call" + (" (two exclusive variants: with / without output)" if two else ""), fn=short)
         else:
-            ck.violation("R4", f"{short}:one-fn", sigs[0].site if sigs else "-", f"{short}: {len(sigs)} `pub async fn` templates under conditions {sorted(conds)}", fn=short)
+            ck.violation("R4", f"{short}:one-fn", sigs_local[0].site if sigs_local else "-",
+                         f"{short}: {len(sigs_local)} `pub async fn` templates under conditions {[[ (og.nf_str(k[1]), v) for k, v in d] for d in decs]}", fn=short)
+        # the method is named after the operation: looked at in the document's grammar, where the parameter is the loop element
+        sigs = [e for e in stream if e.fn == fn and re.match(r"^\s*pub async fn \{\}\(", e.skeleton())]
         for e in sigs:
-            nm = og.nf_str(CE.expand(e.holes()[0][0]))
-            nch, nroot = og.sanitiser_chain(CE.expand(e.holes()[0][0]))
-            if "to_snake_case" in nch and og.nf_str(nroot) == "operation_name":
-                ck.ok("R4", f"{short}:fn-name", e.site, f"{short}: method name = {nm}", fn=short)
+            h0 = CE.expand(e.holes()[0][0])
+            nm = og.nf_str(h0)
+            nch, nroot = og.sanitiser_chain(h0)
+            root_s = og.nf_str(nroot)
+            if "to_snake_case" in nch and root_s.endswith("operations).0"):
+                ck.ok("R4", f"{short}:fn-name", e.site, f"{short}: method name = {nm[:80]}", fn=short)
             else:
-                ck.violation("R4", f"{short}:fn-name", e.site, f"{short}: method name is {nm}, not the snake_case form of the operation name", fn=short)
+                ck.violation("R4", f"{short}:fn-name", e.site, f"{short}: method name is {nm[:100]}, not the snake_case form of the operation name", fn=short)
+        if not sigs:
+            ck.undecided("R4", f"{short}:fn-name", "-", f"{short}: no method signature template found in the document's grammar", fn=short)
     # ---- R5
     evs = [e for e in X.events.get(OP_EMITTERS[0], []) if e.kind == "emit"]
     body = [e for e in evs if not re.match(r"^\s*pub async fn", e.skeleton()) and e.skeleton().strip() not in ("}", "")]
